@@ -119,6 +119,7 @@ pub fn corpus(format: usize, rng: &mut Rng, m128: bool) -> Vec<u8> {
                 with_keyb: rng.bool(),
                 with_mouse: rng.bool(),
                 fe_low: if rng.bool() { Some(rng.u8() & 7) } else { None },
+                fe_hi: rng.u8() & 0x18,
             };
             write_szx(&s, &opt)
         }
@@ -562,7 +563,7 @@ impl Property for C15 {
         } else {
             if mode == 3 && format == 1 {
                 let s = sample_state(rng, file128);
-                let opt = SzxOptions { compress: vec![true; 8], order_seed: 0, unknown_chunks: 1, with_creator: true, with_ay: true, with_keyb: true, with_mouse: true, fe_low: None };
+                let opt = SzxOptions { compress: vec![true; 8], order_seed: 0, unknown_chunks: 1, with_creator: true, with_ay: true, with_keyb: true, with_mouse: true, fe_low: None, fe_hi: 0 };
                 sc.push(Op::blob("file", &[], write_szx(&s, &opt)));
             } else {
                 sc.push(Op::blob("file", &[], corpus(format as usize, rng, file128)));
